@@ -44,6 +44,11 @@ CHECKS.update({
          "(a) every Next position of every input (3 failure variants) and every WriteNext position of generated merges is failed once against the real Merge/MergeCompact/MergeCompactIterator; (b) flushes and compaction cycles of a real SimpleDB run in sub-processes with a failing k-th data/index append, a failing input record or a file-size limit that makes write(2) fail at a chosen byte; success may only be reported for complete output, after a reported compaction error the same and a fresh process must still read the model.",
          "hook failures are clean failures; kernel faults only through RLIMIT_FSIZE (EFBIG); a failed flush ends in log.Panicf, what it leaves on disk is judged by C02", "§3 C11", "E6"),
 })
+CHECKS.update({
+ "C01": ("exploration", "reference-model monitor: Go map shadowing every SimpleDB call of seeded single-client programs with driven (helper-placed) and live (ticker) flush/compaction schedules and per-session option redraws",
+         "Seeded programs of Put/Delete/Get/rotation/compaction-cycle/Close+re-Open (new options each session) run against the real database; every read is compared with a map, every rotation, compaction and reopen is followed by a full read-back, and a child killed by log.Panicf in the flusher or compactor is a violation. Exploration: the schedules are those the program places (driven) or the scheduler/ticker produce (live).",
+         "valid keys/values only; live schedules are not enumerated, only sampled", "§3 C01", "E1"),
+})
 NOT_YET = {}
 props = [json.loads(l) for l in open(os.path.join(ROOT, "properties.jsonl"))]
 hooks_commits = []
